@@ -78,7 +78,7 @@ func exploreFine(env *Env, rep *Report, prop string) int {
 	for _, fc := range mk() {
 		names = append(names, fc.Name)
 	}
-	rep.Rule += " Plus requests at the same time with statement-level scheduling points (web, security, identity, rdp), every schedule with one deviation from the default one: " + strings.Join(names, ", ") + "."
+	rep.Rule += " Plus requests at the same time with statement-level scheduling points (web, security, identity, rdp), every schedule with one deviation from the default one (thorough: two deviations for cases with at most 400 decision points): " + strings.Join(names, ", ") + "."
 	for i, fc := range mk() {
 		if env.Part != "" && !strings.Contains(fc.Name, env.Part) {
 			continue
@@ -92,7 +92,11 @@ func exploreFine(env *Env, rep *Report, prop string) int {
 		if a.Outcome != b.Outcome || len(a.X.Decisions) != len(b.X.Decisions) {
 			infra("%s %s is not deterministic under replay: %q/%d vs %q/%d", prop, fc.Name, a.Outcome, len(a.X.Decisions), b.Outcome, len(b.X.Decisions))
 		}
-		ex := &vsched.Explorer{Bound: bound, AllSwitchesCost: true, Shard: env.Shard, NShards: env.NShards, Deadline: env.Deadline, RunOne: fc.Run}
+		db := bound
+		if env.thorough() && !fc.Cold && len(a.X.Decisions) <= 400 {
+			db = 2 // small cases: a second deviation is affordable (about half the square of the decision points)
+		}
+		ex := &vsched.Explorer{Bound: db, AllSwitchesCost: true, Shard: env.Shard, NShards: env.NShards, Deadline: env.Deadline, RunOne: fc.Run}
 		if err := ex.Explore(); err != nil {
 			infra("%s %s: %v", prop, fc.Name, err)
 		}
@@ -110,7 +114,7 @@ func exploreFine(env *Env, rep *Report, prop string) int {
 			rep.violate(f.Sig, f.Detail, map[string]any{"engine": "fine", "scenario": fc.Name, "choices": f.Choices})
 		}
 		if env.Shard == 0 {
-			rep.sample(map[string]any{"scenario": fc.Name, "statement_level_decision_points_in_default_schedule": len(a.X.Decisions), "executions_this_shard": ex.Execs, "deviation_bound": bound})
+			rep.sample(map[string]any{"scenario": fc.Name, "statement_level_decision_points_in_default_schedule": len(a.X.Decisions), "executions_this_shard": ex.Execs, "deviation_bound": db})
 		}
 	}
 	return n
